@@ -47,7 +47,10 @@ func TestVerif_C08_duplex_h2(t *testing.T) {
 		"HTTP/2 full-duplex exchange against net/http's h2 server: the handler answers 200 at once and never reads the (endless) request body; once the upload source has not been asked for data for 200 ms (writer waiting for flow-control tokens) the context is cancelled / the event-driven deadline passes / Client.SetTimeout expires while the caller reads the response body; observed: error class of the pending read, time to return (bound 2 s), Close on the request body, reads after Close, follow-up request, library goroutines left; oracle only (the lifecycle model has no early response); non-trivial = the stalled state was reached")
 	cnt := map[string]int{}
 	count := func(k string) { cnt[k]++; s.Count(k) }
-	kinds := []string{"canceled", "deadline", "client-timeout"}
+	kinds := []string{"canceled", "client-timeout"}
+	if verifh.Thorough() {
+		kinds = []string{"canceled", "deadline", "client-timeout"}
+	}
 	rounds := verifh.N(1, 4)
 	for round := 0; round < rounds; round++ {
 		for _, kind := range kinds {
@@ -72,7 +75,7 @@ func TestVerif_C08_duplex_h2(t *testing.T) {
 			c := C().EnableInsecureSkipVerify().DisableAutoReadResponse()
 			var ctx context.Context
 			var inject func()
-			clientTimeout := 1200 * time.Millisecond
+			clientTimeout := 1000 * time.Millisecond
 			switch kind {
 			case "canceled":
 				cctx, cancel := context.WithCancel(context.Background())
@@ -131,7 +134,7 @@ func TestVerif_C08_duplex_h2(t *testing.T) {
 			var rerr error
 			var elapsed time.Duration
 			pending := false
-			limit := c08Bound + time.Second
+			limit := c08Bound + 300*time.Millisecond
 			if inject == nil {
 				limit += clientTimeout
 			}
